@@ -43,6 +43,14 @@ class Variable:
         self.attrs = dict(attrs or {})
 
     @property
+    def values(self):
+        return self.data
+
+    @property
+    def size(self):
+        return len(self.data)
+
+    @property
     def dtype(self):
         return self.data.dtype
 
@@ -99,6 +107,12 @@ class _Coords:
     def items(self):
         return self._a._coords.items()
 
+    def __iter__(self):
+        return iter(self._a._coords)
+
+    def __len__(self):
+        return len(self._a._coords)
+
 
 class _Indexes:
     def __init__(self, arr):
@@ -108,9 +122,18 @@ class _Indexes:
         return Index(self._a._coords[dim].data.tolist())
 
 
+class OpaqueData:
+    """array whose values are not modelled (FFT output etc.): only its shape"""
+
+    def __init__(self, shape):
+        self.shape = tuple(shape)
+        self.ndim = len(self.shape)
+        self.dtype = None
+
+
 class DataArray:
     def __init__(self, data=None, dims=None, coords=None, attrs=None, name=None):
-        if not isinstance(data, npl.ndarray):
+        if not isinstance(data, (npl.ndarray, OpaqueData)):
             data = npl.array(data)
         self.data = data
         self.dims = (dims,) if isinstance(dims, str) else tuple(dims)
@@ -120,6 +143,8 @@ class DataArray:
         for k, v in dict(coords or {}).items():
             if isinstance(v, Variable):
                 var = Variable(v.dims, v.data, v.attrs)
+            elif isinstance(v, range):
+                var = Variable((k,), npl.array(list(v)), {})
             else:
                 var = Variable((k,), npl.array(_as_list(v)), {})
             if k in self.dims:
@@ -135,6 +160,16 @@ class DataArray:
     @property
     def coords(self):
         return _Coords(self)
+
+    @property
+    def values(self):
+        return self.data
+
+    def __getattr__(self, name):
+        c = self.__dict__.get("_coords", {})
+        if name in c:
+            return c[name]
+        raise AttributeError(name)
 
     @property
     def indexes(self):
